@@ -41,7 +41,7 @@ RULE = ("random histories (<= 12 operations quick / <= 24 thorough, plus a drain
 ASSUMPTIONS = [
     "the source below a wrapper answers read(n), n >= 1, with at most n bytes (a non-empty prefix while data remains)",
     "read sizes are -1 or >= 0 and seek offsets are >= 0 (negative values other than -1 are outside the modelled domain)",
-    "PatchedIceCastClient without ICY metadata (icy-metaint absent): chunks are at most BLOCK_SIZE bytes",
+    "the icy-metaint header, when present, is a positive integer and BLOCK_SIZE <= buffer size - headroom (production: 8192 <= 32768)",
     "one thread at a time touches a buffer (the lock in PatchedIceCastClient is taken as given)",
 ]
 TRUSTED = [
@@ -74,6 +74,17 @@ WITNESSES = [
      "blk": 4, "gap": 1, "ops": [["feed", 4], ["fetch", 4], ["read", 4], ["store"], ["read", 2]], "drain": 5},
     {"target": "ice", "size": 65536, "headroom": 32768, "prot": True, "seed": 9, "srclen": 20000, "ks": [10 ** 6, 4999],
      "blk": 8192, "gap": 2, "ops": [["feed", 8192]], "drain": 4096},
+    # ICY streams: interval above the block size (audio must not be dropped when the buffer is nearly
+    # full), short reads inside _readall, metadata blocks of length 0 and > 0, body ending anywhere
+    {"target": "ice", "size": 65536, "headroom": 32768, "prot": False, "seed": 5, "srclen": 100000, "ks": [],
+     "blk": 8192, "gap": 0, "metaint": 16000, "metas": [2, 0, 1], "cut": 100000 + 6 + 48,
+     "ops": [["feed", 8192]] * 9 + [["read", 32768], ["feed", 8192], ["feed", 8192], ["feed", 8192], ["read", 6000],
+                                    ["feed", 8192], ["feed", 8192]], "drain": 8192},
+    {"target": "ice", "size": 16, "headroom": 8, "prot": False, "seed": 2, "srclen": 23, "ks": [1, 0, 5, 0, 2, 9, 0],
+     "blk": 3, "gap": 2, "metaint": 4, "metas": [1, 0], "cut": 60, "ops": [["feed", 3], ["fetch", 3], ["store"]],
+     "drain": 4},
+    {"target": "ice", "size": 16, "headroom": 8, "prot": True, "seed": 4, "srclen": 12, "ks": [], "blk": 8, "gap": 1,
+     "metaint": 5, "metas": [1], "cut": 30, "ops": [["feed", 8], ["read", 3], ["seek", 0]], "drain": 2},
     {"target": "buf", "size": 10, "headroom": 5, "prot": False, "seed": 0, "srclen": 0, "ks": [],
      "ops": [["addp", 0, 0, 12], ["get", 3], ["seek", 1], ["get", 3], ["seek", 7], ["get", 4], ["seek", 0],
              ["addp", 0, 10, 4], ["get", 9]], "drain": 3},
@@ -113,6 +124,49 @@ def digest(b):
 
 def bit(x):
     return "1" if x else "0"
+
+
+def meta_block(l, i):
+    return bytes([l]) + bytes((165 + 7 * i + j) % 256 for j in range(16 * l))
+
+
+_WIRE_CACHE = {}
+
+
+def build_wire(h):
+    key = (h["seed"], h["srclen"], h.get("metaint", 0), tuple(h.get("metas") or ()), h.get("cut"))
+    got = _WIRE_CACHE.get(key)
+    if got is None:
+        if len(_WIRE_CACHE) > 16:
+            _WIRE_CACHE.clear()
+        got = _WIRE_CACHE[key] = _build_wire(h)
+    return got
+
+
+def _build_wire(h):
+    """HTTP response body of an `ice` history and the audio bytes it carries (what the
+    consumer must receive).  With icy-metaint M > 0: runs of M audio bytes, every full run
+    followed by a metadata block (length byte l, 16*l bytes), the body cut after `cut` bytes."""
+    audio = pat(h["seed"], 0, h["srclen"])
+    M = h.get("metaint", 0)
+    if not M:
+        return audio, audio
+    metas = h.get("metas") or [0]
+    out, is_audio, i, off = bytearray(), bytearray(), 0, 0
+    while True:
+        run = audio[off:off + M]
+        out += run
+        is_audio += b"\x01" * len(run)
+        off += len(run)
+        if len(run) < M:
+            break
+        mb = meta_block(metas[i % len(metas)], i)
+        out += mb
+        is_audio += b"\x00" * len(mb)
+        i += 1
+    cut = h.get("cut", len(out))
+    out, is_audio = out[:cut], is_audio[:cut]
+    return bytes(out), bytes(b for b, a in zip(out, is_audio) if a)
 
 
 # ---------------------------------------------------------------------------------------
@@ -230,10 +284,11 @@ class FakeRequests:
 class _Response:
     """Fake `requests` response; its raw body is the rig (scripted short reads)."""
 
-    def __init__(self, rig):
+    def __init__(self, rig, metaint):
         self.status_code = 200
         self.reason = "OK"
-        self.headers = {}
+        self.headers = {"icy-metaint": str(metaint)} if metaint else {}
+        rig.headers = self.headers
         self.raw = rig
 
     def __enter__(self):
@@ -244,36 +299,74 @@ class _Response:
 
 
 class _HookLock:
-    """The client's buffer lock; taking it is a scheduling point of the download thread."""
+    """The client's buffer lock.  Taking it is a scheduling point of the download thread;
+    who holds it is recorded so that unprotected writes to the shared buffer are seen."""
 
     def __init__(self, rig):
         self.rig = rig
         self.lock = threading.Lock()
+        self.owner = None
 
     def __enter__(self):
         if self.rig.in_downloader():
+            self.rig.reading = False
             self.rig.park("lock")
         self.lock.acquire()
+        self.owner = threading.current_thread()
         return self
 
     def __exit__(self, *a):
+        self.owner = None
         self.lock.release()
+        if self.rig.in_downloader() and self.rig.pause_after_unlock:
+            self.rig.park("unlock")
         return False
+
+
+def watch_buffer(buffer, rig):
+    """Make stores to the shared buffer's `_buffer` attribute observable (a subclass of the
+    real class with a property; behaviour is unchanged).  A store made by a thread that
+    does not hold the buffer lock is a data race: the other thread may run a whole locked
+    section between the evaluation of the new value and the store.  If the downloader is
+    waiting for the lock at that moment, exactly that (legal) interleaving is produced."""
+    cls = type(buffer)
+    if "_buffer" not in buffer.__dict__:
+        return
+
+    def getter(self):
+        return self.__dict__["_verif_buffer"]
+
+    def setter(self, value):
+        r = self.__dict__.get("_verif_rig")
+        if r is not None:
+            r.on_store()
+        self.__dict__["_verif_buffer"] = value
+
+    watched = type("Watched" + cls.__name__, (cls,), {"_buffer": property(getter, setter)})
+    buffer.__dict__["_verif_buffer"] = buffer.__dict__.pop("_buffer")
+    buffer.__dict__["_verif_rig"] = rig
+    buffer.__class__ = watched
 
 
 class IceRig:
     """Real PatchedIceCastClient with its real download thread, scheduled deterministically.
 
-    Scheduling points of the download thread (D): the HTTP body's read(), time.sleep()
-    (waiting for room) and taking the buffer lock.  D runs only between `resume()` and its
-    next `park()`; the main thread (M, the consumer) runs only while D is parked."""
+    Scheduling points of the download thread (D): the first body read() of a loop turn,
+    time.sleep() (waiting for room), taking the buffer lock, (on request) releasing it, and
+    any store to the shared buffer made without holding the lock.  D runs only between
+    `resume()` and its next `park()`; the main thread (M, the consumer) runs only while D
+    is parked."""
 
-    def __init__(self, A, buffer, src, blk):
+    def __init__(self, A, buffer, src, blk, metaint=0):
         self.src = src
-        self.parked = None          # "read" | "sleep" | "lock" | "finished"
-        self.budget = 0             # reads D may perform before it has to park
+        self.parked = None          # "read" | "sleep" | "lock" | "unlock" | "racy-store" | "finished"
+        self.reading = False        # D is inside the reading part of a turn (no parking at reads)
         self.served = False
         self.abort = False
+        self.pause_after_unlock = False
+        self.in_race = False
+        self.races = 0
+        self.empty_reads = 0
         self.t = 0.0
         self.m_go = threading.Semaphore(0)
         self.d_go = threading.Semaphore(0)
@@ -282,13 +375,15 @@ class IceRig:
         client.error_message = None
         client._stop_stream = False
         client._buffer = buffer
-        client._buffer_lock = _HookLock(self)
+        self.lock = _HookLock(self)
+        client._buffer_lock = self.lock
         client.BLOCK_SIZE = blk
         self.client = client
-        A.requests = FakeRequests(_Response(self))
+        A.requests = FakeRequests(_Response(self, metaint))
         A.time = self
         self.thread = threading.Thread(target=self._main, daemon=True)
         client._download_thread = self.thread
+        watch_buffer(buffer, self)
         self.thread.start()
         self._wait()
 
@@ -320,11 +415,34 @@ class IceRig:
 
     # -- HTTP body ------------------------------------------------------------------------
     def read(self, n):
-        if self.budget <= 0:
+        if not self.reading:
             self.park("read")
-        self.budget -= 1
+            self.reading = True
         self.served = True
-        return self.src.take(n)
+        out = self.src.take(n)
+        self.empty_reads = 0 if out or n == 0 else self.empty_reads + 1
+        if self.empty_reads > 200:
+            raise RuntimeError("response body read again and again after its end")
+        return out
+
+    # -- unprotected stores to the shared buffer ------------------------------------------
+    def on_store(self):
+        if self.abort or self.parked is None:
+            return
+        me = threading.current_thread()
+        if self.lock.owner is me:
+            return
+        self.races += 1
+        if me is self.thread:
+            self.park("racy-store")       # the consumer may run before this store lands
+        elif self.parked == "lock" and not self.in_race:
+            self.in_race = True           # the downloader runs its whole locked section right now
+            self.pause_after_unlock = True
+            try:
+                self.resume()
+            finally:
+                self.pause_after_unlock = False
+                self.in_race = False
 
     # -- time ---------------------------------------------------------------------------
     def monotonic(self):
@@ -339,17 +457,17 @@ class IceRig:
 
     # -- schedule operations (main thread) ------------------------------------------------
     def fetch(self):
-        if self.parked in ("finished", "lock"):
+        if self.parked in ("finished", "lock", "unlock", "racy-store"):
             return False
-        self.budget, self.served = 1, False
+        self.reading, self.served = True, False
         self.resume()
-        self.budget = 0
+        self.reading = False
         return self.served
 
     def store(self):
-        if self.parked != "lock":
+        if self.parked not in ("lock", "unlock", "racy-store"):
             return False
-        self.budget = 0
+        self.reading = False
         self.resume()
         return True
 
@@ -420,7 +538,9 @@ class Session:
                     asyncio.set_event_loop(None)
             self.w = self.inner if t == "srw" else A.StreamableSourceWrapper(self.inner, self.buffer)
         elif t == "ice":
-            self.rig = IceRig(A, self.buffer, self.src, h["blk"])
+            self.S, self.audio = build_wire(h)
+            self.src = ScriptedSource(self.S, h["ks"])
+            self.rig = IceRig(A, self.buffer, self.src, h["blk"], h.get("metaint", 0))
             self.client = self.rig.client
             self.w = A.StreamableSourceWrapper(self.client, self.buffer, name="verif")
 
@@ -519,6 +639,10 @@ def model_line(op):
 
 
 def reset_line(h):
+    if h["target"] == "ice":
+        return "ireset %d %d %s %d %d %s %d %d %s" % (
+            h["size"], h["headroom"], bit(h["prot"]), h["seed"], h["srclen"], ",".join(map(str, h["ks"])) or "-",
+            h.get("metaint", 0), h.get("cut", 0), ",".join(map(str, h.get("metas") or [])) or "-")
     if h["target"] == "buf":
         return "reset %d %d %s" % (h["size"], h["headroom"], bit(h["prot"]))
     return "wreset %s %d %d %s %d %d %s" % (h["target"], h["size"], h["headroom"], bit(h["prot"]), h["seed"],
@@ -533,7 +657,7 @@ class Reference:
         self.target = h["target"]
         self.is_buf = h["target"] == "buf"
         self.acc = bytearray() if self.is_buf else None
-        self.S = None if self.is_buf else pat(h["seed"], 0, h["srclen"])
+        self.S = None if self.is_buf else (build_wire(h)[1] if h["target"] == "ice" else pat(h["seed"], 0, h["srclen"]))
         self.cur = 0
         self.after_seek = False
         self.problems = []
@@ -695,7 +819,7 @@ def _run_history(sess, h):
 # ---------------------------------------------------------------------------------------
 # generation
 
-def gen_history(rng, thorough, big=False, targets=None):
+def gen_history(rng, thorough, big=False, targets=None, metaint=None):
     target = rng.choice(targets or (["buf", "buf"] + KINDS + ["bio", "srw", "ice"]))
     size, headroom = rng.choice(BIG_SIZES if big else SIZES)
     if rng.chance(0.15) and not big:
@@ -712,15 +836,38 @@ def gen_history(rng, thorough, big=False, targets=None):
     # BLOCK_SIZE <= buffer - headroom (production: 8192 <= 32768)
     cap = max(1, size - headroom)
     blk = min(cap, rng.choice([1, 2, 3, max(1, cap // 2), cap, 8192]))
+    if target == "ice" and metaint:
+        # production shape: block 8192, enough audio for a few metadata intervals
+        blk = min(cap, 8192)
+        srclen = rng.choice([metaint, 2 * metaint + 5, 3 * metaint + rng.randint(0, metaint), rng.randint(1, 40 * metaint)])
+    elif target == "ice":
+        metaint = rng.choice([0, 0, 0, 1, 2, 3, max(1, blk - 1), blk, blk + 1, 2 * blk + 1, 16, 5 * blk])
     if target == "ice":
-        srclen = min(srclen, 40 * blk + rng.randint(0, blk))
+        # a turn of the download loop moves at most min(block, interval) bytes: keep histories short
+        step = min(blk, metaint) if metaint else blk
+        srclen = max(0, min(srclen, 40 * step + rng.randint(0, step)))
         # HTTP bodies: short reads of 1..BLOCK_SIZE-1 bytes mid-stream, sometimes full blocks
         nks = rng.choice([0, 4, 64, 64])
         ks = [rng.choice([rng.randint(0, max(0, blk - 2)), rng.randint(0, max(0, blk - 2)), 0, 10 ** 6])
               for _ in range(nks)]
-    return {"target": target, "size": size, "headroom": headroom, "prot": prot, "seed": seed, "srclen": max(0, srclen),
+    extra = {}
+    if target == "ice":
+        extra = gen_icy(rng, blk, srclen, metaint)
+    return dict(extra, **{"target": target, "size": size, "headroom": headroom, "prot": prot, "seed": seed, "srclen": max(0, srclen),
             "ks": ks, "ops": [], "drain": rng.choice([0, 1, 3, headroom, size + 1, size]),
-            "blk": blk, "gap": rng.choice([0, 1, 2]), "_maxops": maxops}
+            "blk": blk, "gap": rng.choice([0, 1, 2]), "_maxops": maxops})
+
+
+def gen_icy(rng, blk, alen, metaint=None):
+    """ICY framing of an `ice` history: icy-metaint (0 = plain HTTP), the length bytes of the
+    metadata blocks (0 and > 0) and where the response body ends."""
+    if not metaint:
+        return {"metaint": 0, "metas": [], "cut": 0}
+    metas = [rng.choice([0, 0, 0, 1, 1, 2, 3]) for _ in range(rng.choice([1, 3, 5]))]
+    h = {"seed": 0, "srclen": alen, "metaint": metaint, "metas": metas}
+    full = len(_build_wire(h)[0])
+    cut = full if rng.chance(0.6) else rng.randint(0, full)
+    return {"metaint": metaint, "metas": metas, "cut": cut}
 
 
 def pick_size(rng, sess, h):
@@ -786,10 +933,10 @@ def gen_op(rng, sess, h, offered):
     return ["prot", rng.choice([0, 1])]
 
 
-def build_history(env, rng, thorough, big=False, targets=None):
+def build_history(env, rng, thorough, big=False, targets=None, metaint=None):
     """Adaptive generation: the next operation looks at the real buffer's state (that is how
     sizes get biased to room±1 etc.); the resulting explicit op list is what is recorded."""
-    h = gen_history(rng, thorough, big, targets)
+    h = gen_history(rng, thorough, big, targets, metaint)
     maxops = h.pop("_maxops")
     sess = Session(env, h)
     try:
@@ -817,7 +964,8 @@ def check_histories(ctx, env, histories, tag):
         lean_lines.extend(model_line(op) for op in ops_done)
     answers = ctx.lean(lean_lines) if lean_lines else []
     for h, ops_done, lines, problems, flags, start in per:
-        canon = [h["target"], h["size"], h["headroom"], h["prot"], h["seed"], h["srclen"], h["ks"], h["ops"], h["drain"]]
+        canon = [h["target"], h["size"], h["headroom"], h["prot"], h["seed"], h["srclen"], h["ks"], h["ops"], h["drain"],
+                 h.get("metaint", 0), h.get("metas"), h.get("cut"), h.get("gap"), h.get("blk") if h["target"] == "ice" else 0]
         nontrivial = bool({"read-after-seek", "full", "discarded"} & flags)
         ctx.case(canon, nontrivial, sample={k: h[k] for k in ("target", "size", "headroom", "prot", "srclen", "ops")}
                  if len(h["ops"]) <= 8 else None)
@@ -826,6 +974,8 @@ def check_histories(ctx, env, histories, tag):
         ctx.note("hop:" + tag)
         if h["target"] == "ice":
             ctx.note("ice-schedule:gap%d" % h.get("gap", 0))
+            m = h.get("metaint", 0)
+            ctx.note("icy-metaint:" + ("none" if not m else str(m) if m >= 8191 or m in (1, 16) else "small"))
         for f in flags:
             ctx.note("event:" + f)
         for op in ops_done:
@@ -851,7 +1001,8 @@ def check_histories(ctx, env, histories, tag):
 
 
 def strip(h):
-    return {k: h[k] for k in ("target", "size", "headroom", "prot", "seed", "srclen", "ks", "ops", "drain", "blk", "gap")
+    return {k: h[k] for k in ("target", "size", "headroom", "prot", "seed", "srclen", "ks", "ops", "drain", "blk", "gap", "metaint",
+                              "metas", "cut")
             if k in h}
 
 
@@ -871,6 +1022,12 @@ def run(ctx, only=None):
             n -= m
         gb = rng.fork("production-sizes")
         check_histories(ctx, env, [build_history(env, gb, ctx.thorough, big=True) for _ in range(ctx.scale(16, 60))], "sync")
+        gi = rng.fork("icy-production")
+        hs = []
+        for rep in range(ctx.scale(2, 6)):
+            for m in (1, 16, 8191, 8192, 8193, 16000, 65536):
+                hs.append(build_history(env, gi, ctx.thorough, big=True, targets=["ice"], metaint=m))
+        check_histories(ctx, env, hs, "sync")
     finally:
         env.close()
     # a sample of stream-reader histories through a real event-loop thread
